@@ -6,8 +6,8 @@ import (
 	"go/token"
 	"go/types"
 	"os"
-	"strconv"
 	"sort"
+	"strconv"
 	"strings"
 	"sync"
 
